@@ -678,6 +678,8 @@ class BGP(protocol.Protocol):
                 LOG.info("send flowspec")
                 for prefix in attr[14]['nlri']:
                     value = copy.deepcopy(attr)
+                    # what the same UPDATE withdraws is not an attribute of the announced route
+                    value.pop(15, None)
                     value14 = value[14]
                     del value14['nlri']
                     key = "{"
@@ -720,6 +722,8 @@ class BGP(protocol.Protocol):
                 LOG.info("send mpls_vpn")
                 for prefix in attr[14]['nlri']:
                     value = copy.deepcopy(attr)
+                    # what the same UPDATE withdraws is not an attribute of the announced route
+                    value.pop(15, None)
                     value14 = value[14]
                     del value14['nlri']
                     key = "{"
@@ -801,6 +805,8 @@ class BGP(protocol.Protocol):
                 LOG.info("recieve flowspec send")
                 for prefix in attr[14]['nlri']:
                     value = copy.deepcopy(attr)
+                    # what the same UPDATE withdraws is not an attribute of the announced route
+                    value.pop(15, None)
                     value14 = value[14]
                     del value14['nlri']
                     key = "{"
@@ -827,6 +833,8 @@ class BGP(protocol.Protocol):
                 LOG.info("receive send mpls_vpn")
                 for prefix in attr[14]['nlri']:
                     value = copy.deepcopy(attr)
+                    # what the same UPDATE withdraws is not an attribute of the announced route
+                    value.pop(15, None)
                     value14 = value[14]
                     del value14['nlri']
                     key = "{"
